@@ -16,7 +16,7 @@ from tcv import families, fsops, refmodel, scratch, worlds
 from tcv.core import HarnessError, Result, Violation, digest
 from tcv.pool import pmap
 
-KINDS_Q = ['json', 'generator', 'dir', 'continues', 'list_of_numpy']
+KINDS_Q = ['json', 'generator', 'generator_lazy', 'dir', 'continues', 'list_of_numpy']
 KINDS_ALL = ['json', 'json_list', 'numpy', 'pandas', 'series', 'generator', 'generator_lazy', 'list_of_numpy', 'dir', 'continues']
 
 
